@@ -1123,6 +1123,10 @@ func c19GenPrep(rng *Rng, malformed bool) string {
 
 // ---- hs: the driver's handshake --------------------------------------------------------------
 
+// c19HsBatch: consecutive answers of the same kind are delivered to the driver's port TOGETHER (they
+// arrive in one cycle) before the driver is ticked, instead of one by one. Oracle-only runs.
+var c19HsBatch bool
+
 func runC19Hs(r *Run, line string, kind string) {
 	ops := splitOps(line)
 	ngpu, acc, pages := 2, 1, 1
@@ -1186,13 +1190,27 @@ func runC19Hs(r *Run, line string, kind string) {
 				prog = true
 			}
 			if !prog {
+				// The driver reported no progress and goes to sleep. It may only do so when a
+				// further tick would not do anything either (otherwise nothing wakes it up again:
+				// messages already in its port do not re-schedule a tick).
+				before := fmt.Sprintf("%+v/%v", d.VerifHandshakeC19(), gpuPort.PeekIncoming() != nil)
+				var again bool
+				if f := catch(func() { again = d.Tick() }); f != "" {
+					return f
+				}
+				after := fmt.Sprintf("%+v/%v", d.VerifHandshakeC19(), gpuPort.PeekIncoming() != nil)
+				r.Checked("hs.quiet-tick")
+				if again || after != before || gpuPort.PeekOutgoing() != nil {
+					r.Failf("C19.hs.sleeps-with-work", line, "a tick reported no progress, but the next tick did work (progress=%v, state %s -> %s): the driver would have gone to sleep with messages waiting in its port", again, before, after)
+					continue
+				}
 				break
 			}
 		}
 		return ""
 	}
 	gpuSrc := sim.NewPort(nil, 1, 1, "GPU1.CP.ToDriver")
-	for _, o := range ops[1:] {
+	for oi, o := range ops[1:] {
 		var m sim.Msg
 		switch o {
 		case "M":
@@ -1233,6 +1251,9 @@ func runC19Hs(r *Run, line string, kind string) {
 		}
 		if m != nil {
 			gpuPort.Deliver(m)
+		}
+		if c19HsBatch && m != nil && oi+2 < len(ops) && ops[oi+2] == o {
+			continue // the next answer is of the same kind: it arrives in the same cycle
 		}
 		if f := settle(); f != "" {
 			out = append(out, "fault:"+f)
@@ -1363,4 +1384,10 @@ func runC19(r *Run, rng *Rng, replay string) {
 		}
 		runC19Hs(r, c19GenHs(rng, conf), kind)
 	}
+	// the same conforming handshakes with answers of one kind arriving in the same cycle (oracles only)
+	r.OracleOnly, c19HsBatch = true, true
+	for i := 0; i < nhs/2; i++ {
+		runC19Hs(r, c19GenHs(rng, true), "conforming")
+	}
+	r.OracleOnly, c19HsBatch = false, false
 }
